@@ -601,3 +601,202 @@ def check_idempotent(prog: Program) -> list[Result]:
     except Exception as e:
         pass
     return out
+
+
+# ---------------------------------------------------------------------------------------------- C04 widening, C07 schema
+
+def check_widening(prog: Program, extra=(("x1", "i"), ("x2", "f"))) -> list[Result]:
+    """C04(b): the optimised query over sources that carry extra, never-mentioned columns computes the same as
+    over the original sources (cells of shared columns are the same z3 variables; the extra cells are free)."""
+    init()
+    from symdf.core import Unsupported, StructuralError
+    from symdf import equiv, conc
+    from symdf.interp import GraphError
+    from dask_expr._expr import optimize
+    from dataclasses import replace
+
+    name = f"{prog.name}|widening"
+    sig = _sig(prog, "widening")
+    wide = Program(prog.text, [replace(s, kinds={**s.kinds, **dict(extra)}) for s in prog.srcs], prog.ordered, prog.check_index, prog.family, prog.note, prog.env_globals)
+    env_n, fr_n = make_env(prog)
+    env_w, fr_w = make_env(wide)
+    try:
+        qn = prog.build(make_collections(prog, fr_n))
+        qw = wide.build(make_collections(wide, fr_w))
+        ref_n = symexec(plan(qn.expr, "unopt"), env_n)[0]
+        ref_w = symexec(plan(qw.expr, "unopt"), env_w)[0]
+    except (Unsupported, StructuralError, GraphError) as e:
+        return [Result(name, SKIPPED, "", f"unsupported/invalid reference: {e}", extra={"unsupported": str(e)})]
+    except Exception as e:
+        return [Result(name, SKIPPED, "", f"program does not build: {type(e).__name__}: {str(e)[:200]}")]
+
+    def replay(tables):
+        fw, pw = _frames_of(tables)
+        fn = {k: v[[c for c in v.columns if c not in dict(extra)]] for k, v in fw.items()}
+        try:
+            a = concrete(plan(prog.build(make_collections(prog, fn, pw)).expr, "unopt"))
+        except Exception as e:
+            return None, f"narrow reference fails: {e}"
+        try:
+            b = concrete(optimize(wide.build(make_collections(wide, fw, pw)).expr, fuse=True))
+        except Exception as e:
+            return True, f"optimised wide query raises {type(e).__name__}: {str(e)[:200]}"
+        same, msg = conc.same_pandas(a, b, prog.ordered, prog.check_index)
+        return (not same), msg
+
+    global replay_stage
+    saved = replay_stage
+    try:
+        replay_stage = lambda prog_, tables, stage, ref_stage="unopt": replay(tables)  # noqa: E731
+        # the query must not depend on the extra columns even unoptimised, otherwise it is not a pruning question
+        r0 = _compare_paths(prog, env_w, name + "-ref", sig, "widening-ref", ref_n, ref_w, time.time())
+        if r0.status != HELD:
+            return [Result(name, SKIPPED, "", "the unoptimised query itself depends on the extra columns (not a pruning question)", extra={"unsupported": "query reads all columns"})]
+        try:
+            opt_w = symexec(optimize(qw.expr, fuse=True), env_w)[0]
+        except Unsupported as e:
+            return [Result(name, SKIPPED, "", f"unsupported in optimised plan: {e}", extra={"unsupported": str(e)})]
+        except (StructuralError, GraphError) as e:
+            differs, msg = replay(conc.tables_from_model(env_w, None, 1))
+            return [Result(name, VIOLATION if differs else HARNESS_ERROR, sig, f"optimised wide plan fails for every input: {e}; replay: {msg}", {"engine": "P", "program": prog.name, "stage": "widening"})]
+        except Exception as e:
+            differs, msg = replay(conc.tables_from_model(env_w, None, 1))
+            return [Result(name, VIOLATION if differs else HARNESS_ERROR, sig, f"optimising the wide query fails: {type(e).__name__}: {e}; replay: {msg}", {"engine": "P", "program": prog.name, "stage": "widening"})]
+        r = _compare_paths(prog, env_w, name, sig, "widening", ref_n, opt_w, time.time())
+    finally:
+        replay_stage = saved
+    return [r]
+
+
+def _labels_of(v):
+    from symdf.frame import SymFrame, SymSeries, SymIndex, SymLabelSeries
+    from symdf.core import SymScalar
+
+    if isinstance(v, SymFrame):
+        return ("frame", [str(x) for x in v.labels], str(v.index_.name) if v.index_.defined else None)
+    if isinstance(v, SymSeries):
+        return ("series", str(v.name), str(v.index_.name) if v.index_.defined else None)
+    if isinstance(v, SymIndex):
+        return ("index", str(v.name), None)
+    if isinstance(v, SymLabelSeries):
+        return ("series", str(v.name), None)
+    if isinstance(v, (SymScalar, int, float, bool)):
+        return ("scalar", None, None)
+    return None
+
+
+def _labels_of_meta(m):
+    if isinstance(m, pd.DataFrame):
+        return ("frame", [str(x) for x in m.columns], str(m.index.name))
+    if isinstance(m, pd.Series):
+        return ("series", str(m.name), str(m.index.name))
+    if isinstance(m, pd.Index):
+        return ("index", str(m.name), None)
+    return ("scalar", None, None)
+
+
+def _labels_of_real(v):
+    if isinstance(v, (pd.DataFrame, pd.Series, pd.Index)):
+        return _labels_of_meta(v)
+    return ("scalar", None, None)
+
+
+def _schema_mismatch(got, want):
+    if got is None:
+        return None
+    if got[0] != want[0]:
+        return f"container kind {got[0]} computed vs {want[0]} declared"
+    if got[1] != want[1]:
+        return f"labels/name {got[1]} computed vs {want[1]} declared"
+    if got[2] is not None and want[2] is not None and got[2] != want[2]:
+        return f"index name {got[2]} computed vs {want[2]} declared"
+    return None
+
+
+def check_schema(prog: Program) -> list[Result]:
+    """C07 (labels / names / container kind): every partition of (a) the root of every optimiser stage and (b) every
+    sub-collection of the logical query carries the labels and names its `_meta` declares; stages keep the declared
+    schema of the query.  Labels are data-independent in the symbolic execution, so one run covers all inputs."""
+    init()
+    from symdf.core import Unsupported, StructuralError
+    from symdf.interp import GraphError, run_graph
+    from symdf import conc
+
+    env, frames = make_env(prog)
+    try:
+        q = prog.build(make_collections(prog, frames))
+    except Exception as e:
+        return [Result(prog.name + "|schema", SKIPPED, "", f"program does not build: {type(e).__name__}: {str(e)[:200]}")]
+    out = []
+    try:
+        declared = _labels_of_meta(q.expr._meta)
+    except Exception as e:
+        return [Result(prog.name + "|schema", SKIPPED, "", f"query has no meta: {type(e).__name__}")]
+    targets = [("root@" + st, q.expr, st) for st in ["unopt"] + STAGES]
+    seen = set()
+    for node in q.expr.walk():
+        if node._name in seen or node is q.expr:
+            continue
+        seen.add(node._name)
+        targets.append((f"node:{type(node).__name__}", node, "unopt"))
+    for label, node, stage in targets:
+        name = f"{prog.name}|schema|{label}"
+        sig = _sig(prog, "schema|" + label)
+        try:
+            pl = plan(node, stage)
+        except Exception as e:
+            out.append(Result(name, SKIPPED, "", f"planning failed: {type(e).__name__}"))
+            continue
+        try:
+            want = _labels_of_meta(pl._meta)
+        except Exception as e:
+            out.append(Result(name, SKIPPED, "", f"node has no meta: {type(e).__name__}"))
+            continue
+        if label.startswith("root@") and want[:2] != declared[:2]:
+            out.append(Result(name, VIOLATION, sig, f"stage {stage} changes the declared schema: {declared} -> {want}", {"engine": "P", "program": prog.name, "stage": label}))
+            continue
+        try:
+            from symdf import core as _core
+
+            def once():
+                return run_graph(pl, env)[0]
+
+            paths = _core.explore(once, lambda: z3.Solver(), base=env.constraints)
+        except (Unsupported, StructuralError, GraphError) as e:
+            out.append(Result(name, SKIPPED, "", f"unsupported: {e}", extra={"unsupported": str(e)}))
+            continue
+        except Exception as e:
+            out.append(Result(name, SKIPPED, "", f"interpreter: {type(e).__name__}: {e}", extra={"unsupported": str(e)}))
+            continue
+        bad = None
+        for pc, parts in paths:
+            if isinstance(parts, Exception):
+                continue
+            for i, v in enumerate(parts):
+                msg = _schema_mismatch(_labels_of(v), want)
+                if msg:
+                    bad = (i, msg)
+                    break
+            if bad:
+                break
+        if not bad:
+            out.append(Result(name, HELD, "", f"{len(paths)} path(s), every partition carries {want}", queries=len(paths)))
+            continue
+        # replay on the real code: compute the node and compare real partition labels with its meta
+        tables = conc.tables_from_model(env, None, 1)
+        fr, present = _frames_of(tables)
+        try:
+            qq = prog.build(make_collections(prog, fr, present))
+            target = qq.expr if label.startswith("root@") else [n for n in qq.expr.walk() if type(n).__name__ == type(node).__name__ and _labels_of_meta(n._meta) == _labels_of_meta(node._meta)][0]
+            real_pl = plan(target, stage)
+            parts = concrete_parts(real_pl)
+            real_bad = [m for m in (_schema_mismatch(_labels_of_real(p), _labels_of_meta(real_pl._meta)) for p in parts) if m]
+        except Exception as e:
+            real_bad = None
+            out.append(Result(name, HARNESS_ERROR, sig, f"schema mismatch in the model ({bad[1]}) could not be replayed: {type(e).__name__}: {e}"))
+            continue
+        if real_bad:
+            out.append(Result(name, VIOLATION, sig, f"partition {bad[0]}: {bad[1]}; real execution: {real_bad[0]}", {"engine": "P", "program": prog.name, "stage": label}))
+        else:
+            out.append(Result(name, HARNESS_ERROR, sig, f"model partition {bad[0]} has {bad[1]} but real execution matches its meta: label model error"))
+    return out
